@@ -85,6 +85,74 @@ def gen_case(rng):
             "squeeze": rng.random() < 0.5}
 
 
+
+# --------------------------------------------------------------------------------------------------------------------
+# c03post: what distinguishes the ORDER of the post-processing.  (a) a non-linear pixel_agg on a sensor that is rotated
+# (some orientation of its path is not the unit rotation) or left-handed and has >= 2 distinct pixels: rotate/flip-then-
+# aggregate (the code) differs from aggregate-then-rotate/flip; (b) an object (source leaf or sensor) whose own path has
+# 2 <= len < longest path and whose pose at (m mod len) differs from its last pose for some m in [len, M): edge padding
+# (the code) differs from cyclic tiling.
+# --------------------------------------------------------------------------------------------------------------------
+NONLINEAR = ("min", "max", "median", "std", "ptp")
+
+
+def order_sensitive_sensors(c):
+    out = 0
+    for s in c["sensors"]:
+        px = {tuple(v) for v in flat_pixels(s)}
+        if len(px) >= 2 and (s["left"] or any(o != ID for o in s["ori"])):
+            out += 1
+    return out
+
+
+def short_multi_step_objects(c):
+    objs = leaves_in_order(c["entries"]) + list(c["sensors"])
+    if not objs:
+        return 0
+    M = max(len(o["pos"]) for o in objs)
+    out = 0
+    for o in objs:
+        n = len(o["pos"])
+        if 2 <= n < M and any((o["pos"][m % n], o["ori"][m % n]) != (o["pos"][-1], o["ori"][-1]) for m in range(n, M)):
+            out += 1
+    return out
+
+
+def force_order_sensitive(rng, c, aggs):
+    """make the case sensitive to both orders: non-linear pixel_agg over a rotated / left-handed multi-pixel sensor, and
+    an object with a multi-step path shorter than the longest one"""
+    if not c["entries"] or not c["sensors"] or not leaves_in_order(c["entries"]):
+        return c
+    c["agg"] = rng.choice(aggs)
+    s = rng.choice(c["sensors"])
+    n = rng.choice([2, 3, 4])
+    while True:
+        px = [rvec(rng) for _ in range(n)]
+        if len({tuple(v) for v in px}) >= 2:
+            break
+    s["pixel"], s["shape"] = px, [n]
+    mode = rng.choice(["rot", "left", "both"])
+    if mode in ("left", "both"):
+        s["left"] = True
+    if mode in ("rot", "both") and all(o == ID for o in s["ori"]):
+        s["ori"] = [rng.choice([i for i in range(24) if i != ID]) for _ in s["ori"]]
+    # one object with a 2- or 3-step path of distinct poses, another one with a longer path
+    objs = leaves_in_order(c["entries"]) + list(c["sensors"])
+    short = rng.choice(objs)
+    n = rng.choice([2, 3])
+    short["pos"] = [rvec(rng, 5) for _ in range(n)]
+    short["ori"] = rng.sample(range(24), n)
+    if short is s and mode in ("rot", "both") and all(o == ID for o in s["ori"]):
+        s["ori"][0] = rng.choice([i for i in range(24) if i != ID])
+    others = [o for o in objs if o is not short]
+    if others:
+        lng = rng.choice(others)
+        m = n + rng.choice([1, 2])
+        lng["pos"] = [rvec(rng, 5) for _ in range(m)]
+        lng["ori"] = [rng.randrange(24) for _ in range(m)]
+    return c
+
+
 def flat_pixels(s):
     if s["pixel"] is None:
         return [[0, 0, 0]]
@@ -261,7 +329,9 @@ def dup_ok(c):
 def run_stream(ctx, n_cases):
     stats = {"cases": 0, "errors": {}, "agg": {}, "disagreements": 0, "distinct_outputs": 0, "max_leaves": 0,
              "with_collections": 0, "with_duplicates": 0, "mixed_pixel_shapes": 0, "sumup": 0, "squeeze": 0,
-             "degenerate_inputs": 0, "dataframe_cases": 0, "dataframe_rows": 0, "dataframe_sumup_label": 0, "dataframe_errors": 0}
+             "degenerate_inputs": 0, "dataframe_cases": 0, "dataframe_rows": 0, "dataframe_sumup_label": 0, "dataframe_errors": 0,
+             "nonlinear_agg_on_rotated_or_left_multipixel_sensor": 0, "of_these_with_sumup": 0,
+             "cases_with_short_multi_step_path": 0, "both_order_sensitivities": 0}
     cases = []
     while len(cases) < n_cases:
         c = gen_case(ctx.rng)
@@ -269,6 +339,10 @@ def run_stream(ctx, n_cases):
             cases.append(c)
     for c in cases:
         c["labels"] = ctx.rng.random() < 0.5
+    # c03post: a fifth of the cases is made sensitive to the order rotate/flip vs pixel_agg (min / max, exact on integers) and
+    # to edge-vs-cyclic padding of short multi-step paths
+    for c in cases[::5]:
+        force_order_sensitive(ctx.rng, c, ["min", "max"])
     ml = run_driver([model_line(c) for c in cases])
     mdf = run_driver([model_line(c, df=True) for c in cases])
     seen, samples = set(), []
@@ -297,6 +371,12 @@ def run_stream(ctx, n_cases):
         stats["sumup"] += c["sumup"]
         stats["degenerate_inputs"] += (not c["entries"]) or (not c["sensors"]) or '"coll": []' in json.dumps(c["entries"])
         stats["squeeze"] += c["squeeze"]
+        nl = c["agg"] in NONLINEAR and order_sensitive_sensors(c) > 0 and r.startswith("ok")
+        sh = short_multi_step_objects(c) > 0 and r.startswith("ok")
+        stats["nonlinear_agg_on_rotated_or_left_multipixel_sensor"] += nl
+        stats["of_these_with_sumup"] += nl and c["sumup"] and len(c["entries"]) > 1
+        stats["cases_with_short_multi_step_path"] += sh
+        stats["both_order_sensitivities"] += nl and sh
         if r.startswith("err"):
             stats["errors"][r] = stats["errors"].get(r, 0) + 1
         seen.add(r)
@@ -308,6 +388,205 @@ def run_stream(ctx, n_cases):
         elif len(samples) < 2 and len(r) < 400:
             samples.append({"case": c, "output": r})
     stats["distinct_outputs"] = len(seen)
+    stats["samples"] = samples
+    return stats
+
+
+# --------------------------------------------------------------------------------------------------------------------
+# stream `level2f` (c03post; C03 / C04 / C05): the same scenes, pixel_agg = ANY numpy reduction by name — mean, median, std,
+# ptp next to min / max / sum — against `Model/Level2.getBHF` / `dataframeF` with `Model/PixelAgg.byName`, the polymorphic
+# model evaluated in IEEE double (`M3 Float`, `V3 Float`; integer data and octahedral matrices are exact in double, only the
+# reductions round).  Every case is order-sensitive (see above).  Shapes, error kinds and dataframe index columns are
+# compared exactly, values with |a - b| <= TOL * max(1, |a|, |b|).  For each case the two WRONG orders are evaluated in
+# Python on the real pre-aggregation tensor of the same call (aggregate-then-rotate; cyclic tiling): how many cases would
+# tell them from the code's order is reported (`distinguishes_*`).
+# --------------------------------------------------------------------------------------------------------------------
+TOL_F = 1e-9
+AGGS_F = ["median", "std", "max", "min", "median", "std", "mean", "ptp", "sum"]
+
+
+def _bits(tokens):
+    import struct
+    return [struct.unpack("<d", struct.pack("<Q", int(t)))[0] for t in tokens]
+
+
+def parse_model_f(m):
+    """('ok', shape, values) | ('err', kind) | ('other', text)"""
+    if m.startswith("ok shape "):
+        head, _, body = m.partition(" | ")
+        return ("ok", [int(t) for t in head.split()[2:]], _bits(body.split()))
+    if m.startswith("ok df "):
+        head, _, body = m.partition(" | ")
+        rows = []
+        for row in (body.split(" ; ") if body else []):
+            t = row.split(" ")
+            rows.append((t[0], int(t[1]), int(t[2]), int(t[3]), _bits(t[4:])))
+        return ("okdf", rows)
+    if m.startswith("err "):
+        return ("err", m[4:])
+    return ("other", m)
+
+
+def real_f(c, df=False):
+    import warnings
+
+    import magpylib as magpy
+    from magpylib._src.exceptions import MagpylibBadUserInput, MagpylibMissingInput
+
+    entries, sensors = build_real(c)
+    try:
+        with warnings.catch_warnings():
+            warnings.simplefilter("ignore")
+            B = magpy.getB(entries, sensors, sumup=c["sumup"], squeeze=c["squeeze"],
+                           pixel_agg=None if c["agg"] == "none" else c["agg"], **({"output": "dataframe"} if df else {}))
+    except MagpylibBadUserInput:
+        return ("err", "BadUserInput")
+    except MagpylibMissingInput:
+        return ("err", "MissingInput")
+    except Exception as e:  # noqa: BLE001
+        return ("other", f"EXC {type(e).__name__}: {str(e)[:120]}")
+    if df:
+        lab = lambda o: str(o.style.label if o.style.label else o)  # noqa: E731
+        rows = [(str(s_), int(m_), str(k_), int(p_), list(v)) for s_, m_, k_, p_, v in
+                zip(B["source"], B["path"], B["sensor"], B["pixel"], B[["Bx", "By", "Bz"]].to_numpy(float))]
+        return ("okdf", rows, [lab(o) for o in entries], [lab(o) for o in sensors])
+    B = np.asarray(B, dtype=float)
+    return ("ok", list(B.shape), list(B.reshape(-1)))
+
+
+def close_f(a, b):
+    return len(a) == len(b) and all((x == y) or abs(x - y) <= TOL_F * max(1.0, abs(x), abs(y)) or (x != x and y != y)
+                                    for x, y in zip(a, b))
+
+
+def same_f(m, r):
+    if m[0] != r[0]:
+        return False
+    if m[0] == "ok":
+        return m[1] == r[1] and close_f(m[2], r[2])
+    if m[0] == "okdf":
+        # model rows carry entry / sensor indices; replace them by the labels of the real objects at those indices
+        def canon(x):
+            src = f"sumup ({x[0][1:]})" if x[0][0] == "U" else r[2][int(x[0][1:])]
+            return (src, x[1], r[3][x[2]], x[3])
+        return len(m[1]) == len(r[1]) and all(canon(x) == y[:4] and close_f(x[4], y[4]) for x, y in zip(m[1], r[1]))
+    return m[1] == r[1]
+
+
+def wrong_orders_differ(c, real):
+    """evaluate the two seeded orders on the real code's own pre-aggregation values: (1) aggregate the GLOBAL-frame pixel
+    values, then rotate / flip the aggregate; (2) cyclic instead of edge padding of short paths.  Returns (d1, d2): does the
+    final array differ from the real one by more than the tolerance?"""
+    import warnings
+
+    import magpylib as magpy
+    from scipy.spatial.transform import Rotation as R
+
+    if real[0] != "ok":
+        return False, False
+    f = getattr(np, c["agg"])
+    objs = leaves_in_order(c["entries"]) + list(c["sensors"])
+    M = max(len(o["pos"]) for o in objs)
+
+    def final(cyclic, agg_first):
+        cc = json.loads(json.dumps(c))
+        if cyclic:  # the code pads; hand it paths already filled cyclically to the full length
+            for o in leaves_in_order(cc["entries"]) + list(cc["sensors"]):
+                n = len(o["pos"])
+                o["pos"] = [o["pos"][m % n] for m in range(M)] if n > 1 else o["pos"]
+                o["ori"] = [o["ori"][m % n] for m in range(M)] if n > 1 else o["ori"]
+        entries, sensors = build_real(cc)
+        out = []
+        with warnings.catch_warnings():
+            warnings.simplefilter("ignore")
+            for k, (sens, sd) in enumerate(zip(sensors, cc["sensors"])):
+                if not agg_first:
+                    b = np.asarray(magpy.getB(entries, sens, squeeze=False, pixel_agg=c["agg"]), float)[:, :, 0, 0]
+                else:
+                    # global-frame values at the pixel positions, per path index
+                    n = len(sd["pos"])
+                    rows = []
+                    for m in range(M):
+                        mm = min(m, n - 1)
+                        rot = R.from_matrix(np.array(OCTA[sd["ori"][mm]], float))
+                        pos = rot.apply(np.array(flat_pixels(sd), float)) + np.array(sd["pos"][mm], float)
+                        g = np.asarray(magpy.getB(entries, pos, squeeze=False), float)[:, min(m, M - 1), 0]  # (l, pix, 3)
+                        a = f(g, axis=1)                                                                    # (l, 3)
+                        a = rot.inv().apply(a)
+                        if sd["left"]:
+                            a[:, 0] *= -1
+                        rows.append(a)
+                    b = np.stack(rows, axis=1)  # (l, M, 3)
+                out.append(b)
+        B = np.stack(out, axis=2)  # (l, M, k, 3)
+        if c["sumup"]:
+            B = B.sum(axis=0, keepdims=True)
+        return B.reshape(-1)
+
+    ref = np.array(real[2], float)
+    try:
+        d1 = not close_f(list(final(False, True)), list(ref))
+        d2 = not close_f(list(final(True, False)), list(ref))
+    except Exception:  # noqa: BLE001  (reference evaluation only; never an obligation)
+        return False, False
+    return d1, d2
+
+
+def run_f_stream(ctx, n_cases):
+    stats = {"cases": 0, "disagreements": 0, "tolerance": TOL_F, "agg": {}, "errors": {}, "sumup": 0, "mixed_pixel_shapes": 0,
+             "nonlinear_agg_on_rotated_or_left_multipixel_sensor": 0, "of_these_left_handed": 0, "of_these_rotated": 0,
+             "of_these_with_sumup": 0, "cases_with_short_multi_step_path": 0, "dataframe_cases": 0, "max_rel_diff": 0.0,
+             "distinguishes_aggregate_then_rotate": 0, "distinguishes_cyclic_tiling": 0, "non_integer_outputs": 0}
+    cases = []
+    while len(cases) < n_cases:
+        c = gen_case(ctx.rng)
+        if not dup_ok(c):
+            continue
+        if ctx.rng.random() < 0.9:
+            force_order_sensitive(ctx.rng, c, AGGS_F)
+        else:
+            c["agg"] = ctx.rng.choice(AGGS_F + ["none"])
+        c["labels"] = True
+        cases.append(c)
+    ml = run_driver([model_line(c).replace("level2 ", "level2f ", 1) for c in cases])
+    mdf = run_driver([model_line(c, df=True).replace("level2 ", "level2f ", 1) for c in cases])
+    samples = []
+    for i, (c, m, md) in enumerate(zip(cases, ml, mdf)):
+        pm, r = parse_model_f(m), real_f(c)
+        stats["cases"] += 1
+        stats["agg"][c["agg"]] = stats["agg"].get(c["agg"], 0) + 1
+        stats["sumup"] += c["sumup"]
+        stats["mixed_pixel_shapes"] += len({tuple(s["shape"]) for s in c["sensors"]}) > 1
+        ok = r[0] == "ok"
+        nl = c["agg"] in NONLINEAR and order_sensitive_sensors(c) > 0 and ok
+        stats["nonlinear_agg_on_rotated_or_left_multipixel_sensor"] += nl
+        stats["of_these_left_handed"] += nl and any(s["left"] and len({tuple(v) for v in flat_pixels(s)}) >= 2 for s in c["sensors"])
+        stats["of_these_rotated"] += nl and any(any(o != ID for o in s["ori"]) and len({tuple(v) for v in flat_pixels(s)}) >= 2
+                                                for s in c["sensors"])
+        stats["of_these_with_sumup"] += nl and c["sumup"] and len(c["entries"]) > 1
+        stats["cases_with_short_multi_step_path"] += short_multi_step_objects(c) > 0 and ok
+        if r[0] == "err":
+            stats["errors"][r[1]] = stats["errors"].get(r[1], 0) + 1
+        if ok and pm[0] == "ok" and len(pm[2]) == len(r[2]) and r[2]:
+            stats["max_rel_diff"] = max(stats["max_rel_diff"], max(abs(x - y) / max(1.0, abs(x), abs(y)) for x, y in zip(pm[2], r[2])))
+            stats["non_integer_outputs"] += any(abs(x - round(x)) > 1e-9 for x in r[2])
+        if not same_f(pm, r):
+            stats["disagreements"] += 1
+            if stats["disagreements"] <= 3:
+                ctx.broken.append({"kind": "correspondence", "name": "level2f", "detail": {"case": c, "model": str(pm)[:600], "real": str(r)[:600]}})
+        elif len(samples) < 2 and ok and len(r[2]) <= 12 and c["agg"] in ("median", "std"):
+            samples.append({"line": model_line(c)[:300], "agg": c["agg"], "shape": r[1], "real": [float(x) for x in r[2]]})
+        if i % 3 == 0:  # output="dataframe" of the same call
+            rd, pmd = real_f(c, df=True), parse_model_f(md)
+            stats["dataframe_cases"] += 1
+            if not same_f(pmd, rd):
+                stats["disagreements"] += 1
+                if stats["disagreements"] <= 3:
+                    ctx.broken.append({"kind": "correspondence", "name": "level2f", "detail": {"case": c, "output": "dataframe", "model": str(pmd)[:600], "real": str(rd)[:600]}})
+        if nl and c["agg"] != "none" and i % 2 == 0:
+            d1, d2 = wrong_orders_differ(c, r)
+            stats["distinguishes_aggregate_then_rotate"] += d1
+            stats["distinguishes_cyclic_tiling"] += d2
     stats["samples"] = samples
     return stats
 
